@@ -360,17 +360,27 @@ def r7_amount(ctx: Ctx) -> None:
     # currency symbols are dropped wherever they stand (`-$25.00`, `12,50 €`): the deleting pattern is a bare character class, no anchor, no context
     import re._parser as _sre
     import re._constants as _sc
-    dels = [c for c in fl.calls('sub') if dotted(c.func) == 're.sub' and len(c.args) >= 3 and isinstance(c.args[0], ast.Constant) and isinstance(c.args[0].value, str)
-            and isinstance(c.args[1], ast.Constant) and c.args[1].value == '' and any(ch in c.args[0].value for ch in '$€£¥')]
+    from ._tables import fold_str, module_value
+    dels = []           # (call, pattern text)
+    for c in fl.calls('sub'):
+        pat_ = repl_ = None
+        if dotted(c.func) == 're.sub' and len(c.args) >= 3:
+            pat_, repl_ = c.args[0], c.args[1]
+        elif isinstance(c.func, ast.Attribute) and isinstance(c.func.value, ast.Name) and len(c.args) >= 2 and (cv_ := module_value(pa.module, c.func.value.id)) is not None \
+                and isinstance(cv_, ast.Call) and dotted(cv_.func) == 're.compile' and cv_.args:
+            pat_, repl_ = cv_.args[0], c.args[0]            # precompiled at module level
+        text_ = fold_str(pat_, pa.module) if pat_ is not None else None
+        if text_ is not None and isinstance(repl_, ast.Constant) and repl_.value == '' and any(ch in text_ for ch in '$€£¥'):
+            dels.append((c, text_))
     if not dels:
         ctx.unknown('C05.R7', pa, 'no deletion of currency symbols (re.sub(<class>, \'\', …)) found in parse_amount')
-    for c in dels:
+    for c, text_ in dels:
         try:
-            items = list(_sre.parse(c.args[0].value))
+            items = list(_sre.parse(text_))
         except Exception:
             items = None
         ok = items is not None and len(items) == 1 and items[0][0] in (_sc.IN, _sc.LITERAL) and not cfg.guard_literals(fl.stmt_of(c))
-        ctx.check(ok, 'C05.R7', pa, 'currency-symbols', 'currency symbols are removed wherever they stand', f're.sub({c.args[0].value!r}, \'\', …) removes a currency symbol only in one position '
+        ctx.check(ok, 'C05.R7', pa, 'currency-symbols', 'currency symbols are removed wherever they stand', f're.sub({text_!r}, \'\', …) removes a currency symbol only in one position '
                   f'(or only sometimes): `-$25.00` / `12,50 €` keep their symbol, float() fails and the row is dropped', c)
 
 
